@@ -15,4 +15,16 @@ PROPS = {
             "np.array_split(np.arange(n), k) yields k sections, the first n mod k of size n//k+1 (validated differentially)",
         ],
     ),
+    "C09": dict(
+        units=["GenBins"],
+        props_files=["Props/C09.v"],
+        driver="c09",
+        rule="checked-in indexes + indexes htslib writes for generated VCF/BCF (TBI; CSI min_shift 9..20; unused contigs; "
+        "small BGZF blocks) + variants re-serialised by the model's independent serialiser (old-style without pseudo-bins, "
+        "permuted bins, with/without trailing count) + malformed (wrong magic, truncated); the real read_csi/read_tabix vs the "
+        "extracted byte-level parser; counts vs records actually read; translated bin helpers vs the real ones (exhaustive for "
+        "small depths). distinct = distinct case document; non-trivial = more than one record / a transformed index",
+        status="full for the format logic (parser inverts the specification serialiser for all well-formed indexes); htslib's writer and gzip are exercised only differentially",
+        assumptions=["htslib writes what the CSI/tabix specifications say (checked differentially)", "gzip decoding (Python gzip) is outside the model"],
+    ),
 }
